@@ -5,6 +5,21 @@ COMMON_NOTE = ("Trusted base: Lean 4.33 kernel; axioms ⊆ {propext, Classical.c
                "generated tables (harness/gen_tables.py). ")
 
 CLAIMED = {
+    "C07": {
+        "text": "Theorems (Lean, unbounded: any number of snapshots, manifests, markers and listed files, ANY combination of failing storage "
+                "calls): abort_deletes_nothing — a collection that raises has deleted nothing; untrusted_never_deletes — a failing metadata "
+                "read, a hint naming a missing file, an unreadable manifest list or manifest, a failing marker or prefix listing or a listed path "
+                "outside the table make it raise with nothing deleted; fault_never_deletes_live — a completed run deleted no reachable file and "
+                "no file whose marker is fresh, cannot be stat'ed, cannot be removed or cannot be read; collects_orphans (liveness). Four "
+                "regression-witness theorems state the four defects found in the code as found (swallowed marker listing, data-only payload "
+                "fallback, sweep before listing, dangling hint), each replayed on the real collector and repaired. Tie: the REAL "
+                "GarbageCollector.collect runs on a fully scripted environment realising random abstract inputs and must agree with gc.run; "
+                "oracle: every single fault at every storage call of a real run, every corruption class of every reachable metadata-plane file, "
+                "escaping listings, marker faults.",
+        "design_ref": "§6 C07",
+        "note": "Fault = exception before effect on the local backend; parser result classes (missing/truncated/garbage/empty/transient) observed.",
+        "technique": "Lean 4 theorems over the collector's decision function (all fault combinations) + correspondence on scripted environments",
+    },
     "C18": {
         "text": "Theorems (Lean, unbounded: any number of creators/openers, every interleaving): identity_preserved — from ANY initial storage on "
                 "which a table is resolvable (healthy, pointer lost, first version without pointer, dangling/stale pointer with files) nothing is "
